@@ -66,6 +66,40 @@ CLAIMS = {
              "every frame; oracle: real ECU under 1..60 alphabet frames incl. sessions to an address nobody owns.",
         technique="Lean 4 invariant proofs (loop inductions) over hand model with regenerated leaves; lock-step correspondence; hostile-traffic oracle",
         design="§8 C07"),
+    'C01': dict(
+        text="Proof (Lean 4), session level for EVERY payload length/content, window and time: short messages are one frame with the composed "
+             "identifier and unchanged payload and are handed up once with priority/PGN/source; the 7-byte segmentation round-trips (first len "
+             "bytes of the concatenated payloads = message; 255 packets <=> 1785 bytes); an accepted long message is announced by one RTS/BAM "
+             "with exact size, packet count, window limit and PGN and its data frames are the TP.DT frames of consecutive packets of the "
+             "payload; the responder, fed RTS then those frames in order at arbitrary times, delivers the byte-identical payload exactly once at "
+             "the last packet and frees the pair (induction over the packets); the end-of-message ack is the only other PDU reported.  Partial: "
+             "the composition over 2-4 stacks and all bus schedules (incl. latency 0 re-entrancy) is not one theorem: it is covered by the "
+             "lock-step correspondence (atomic handlers) and the network oracle on real stacks.",
+        note="Proved for the code as repaired by fix D23 (BAM PGN of a PDU1 group). Tie: regenerated leaves + lock-step correspondence on "
+             "recorded multi-node scripts; oracle: 2-4 real stacks, concurrent transfers both directions, windows 1..255, latencies incl. 0.",
+        technique="Lean 4 induction over packets / loop invariants over hand model with regenerated leaves; lock-step correspondence; network oracle",
+        design="§8 C01"),
+    'C03': dict(
+        text="Proof (Lean 4), J1939-21: every TP.CM/TP.DT frame the stack builds equals the reference layout written from the standard "
+             "(identifier PF/PS/SA/priority, control bytes 16/17/19/32/255, little-endian size and PGN, packet counts, 0xFF fill, 1-based "
+             "sequence number + 7 bytes + 0xFF padding, always 8 bytes) for all arguments; the receive path's field extraction inverts the "
+             "reference RTS/CTS; any conforming originator's frame sequence (reference TP.DT frames in order, any pacing) is reassembled to the "
+             "message exactly once; the timing envelope (150 ms replies, 200 ms packet spacing, 0.5 s holds) is inside the reflected timeouts.  "
+             "Partial: J1939-22 (FD) layouts are tied by translator validation and oracle only.",
+        note="Model/Ref.lean and the Python reference peer are the trusted statement of the SAE layouts. Oracle: real stack against the "
+             "reference peer in all four roles with windows, holds, latencies, BAM spacing.",
+        technique="Lean 4 equalities between regenerated builders and an independent reference + responder trace induction; reference-peer oracle",
+        design="§8 C03"),
+    'C06': dict(
+        text="Proof (Lean 4), J1939-21: a receive record fed ANY fewer-than-all 8-byte TP.DT frames (any content: arbitrary losses) delivers "
+             "nothing and never completes — truncated or shifted payloads are impossible; fed all packets in order it delivers the exact payload "
+             "once; a record whose deadline passed is removed by the pass, with TP.Conn_Abort reason 3 + session PGN for connection mode (both "
+             "sides) and nothing for broadcast; all reflected timeouts <= 1.25 s; the pair is free afterwards.  Partial: J1939-22 (FD, known "
+             "defect D4) is covered by correspondence/oracle only.",
+        note="Composes with C07 (no record with a past deadline survives a pass). Oracle: every transfer shape x lost k-th frame / silent "
+             "peer from k-th frame (exhaustive in the thorough tier), give-up times, abort contents, follow-up transfer.",
+        technique="Lean 4 byte-count induction over arbitrary surviving frames + per-record pass theorems; lossy-script correspondence; fault-enumeration oracle",
+        design="§8 C06"),
 }
 
 NOT_YET = {}
